@@ -278,6 +278,12 @@ def u9_cases(seed, lo, hi, extra):
             st.hist["u10_cases_with_engine_calls"] = st.hist.get("u10_cases_with_engine_calls", 0) + 1
         if table:
             st.hist["u10_cases_with_bisect"] = st.hist.get("u10_cases_with_bisect", 0) + 1
+        # U12: the projections of the theorems (Fin.accFT / Fin.rejFT) against the projections of the per-run oracle, on
+        # the real output tree (formatter without text tags and without use_replace)
+        if res[0] == "ok" and not cfg.get("text_tags") and not cfg.get("formatting_tags") and not cfg.get("use_replace"):
+            reqs.append("proj\t" + xt.enc_tree(res[1]))
+            pend.append(("U12", res, desc))
+            st.units["U12"] = st.units.get("U12", 0) + 1
     # U11: utils.cleanup_whitespace(x).strip() vs. Acc.wsNorm (what _make_diff_tags does to both values under WS_TEXT)
     import random
     from xmldiff import utils
@@ -293,6 +299,25 @@ def u9_cases(seed, lo, hi, extra):
         st.units["U11"] = st.units.get("U11", 0) + 1
     resp = core.run_driver(reqs)
     for (unit, res, desc), mo in zip(pend, resp):
+        if unit == "U12":
+            def bare(t):
+                q = t.copy()
+                for n in q.iter():
+                    n.attrs = []
+                return q
+            want_a = xmlfmt.accept(res[1], drop_deleted_tail=True)
+            want_r = bare(xmlfmt.reject(res[1]))
+            bad = None
+            if not mo.startswith("ok ") or " | " not in mo:
+                bad = mo[:200]
+            else:
+                ma, mr = mo[3:].split(" | ", 1)
+                bad = xt.doc_eq(xt.dec_tree(ma), want_a) or xt.doc_eq(xt.dec_tree(mr), want_r)
+                if bad is None and [n.attrs for n in xt.dec_tree(ma).iter()] != [n.attrs for n in want_a.iter()]:
+                    bad = "attribute order"
+            if bad:
+                st.disagreements.append({"unit": "U12", "real": xt.to_xml(res[1])[:900], "model": str(bad)[:300], **desc})
+            continue
         if unit == "U11":
             if mo.strip() != ("ok " + xt.enc_str(res[1])).strip():
                 st.disagreements.append({"unit": "U11", "real": repr(res[1]), "model": mo[:200], **desc})
